@@ -730,6 +730,8 @@ class Lib:
         return BoundLib("arr." + name, a)
 
     def value_getitem(self, interp, obj, key):
+        if hasattr(obj, "pyvc_getitem"):      # values of library models defined in pyvc/libext (protocol: item access)
+            return obj.pyvc_getitem(interp, key)
         if isinstance(obj, SeriesVal):
             r = A.getitem(obj.arr, key)
             return SeriesVal(r, obj.name) if isinstance(r, A.Arr) else r
@@ -751,6 +753,8 @@ class Lib:
         raise EngineError(f"subscript of {type(obj).__name__}")
 
     def value_setitem(self, interp, obj, key, value):
+        if hasattr(obj, "pyvc_setitem"):      # values of library models defined in pyvc/libext (protocol: item assignment)
+            return obj.pyvc_setitem(interp, key, value)
         if isinstance(obj, Ref) and obj.kind == "df":
             from .pandas_model import df_setitem
             return df_setitem(interp, obj, key, value)
@@ -994,6 +998,8 @@ class Lib:
 
 
 def lib_setattr(interp, obj, name, value):
+    if hasattr(obj, "pyvc_setattr"):          # values of library models defined in pyvc/libext (protocol: attribute assignment)
+        return obj.pyvc_setattr(interp, name, value)
     raise EngineError(f"attribute assignment on {type(obj).__name__}")
 
 
